@@ -85,7 +85,8 @@ theorem validate_accept (n : Node σ β ρ) (b : β) (s' : σ) (hh : S.height b 
 
 theorem validateRaw_frame (n : Node σ β ρ) (b : β) :
     (validateRaw S n b).1.committed = n.committed ∧ (validateRaw S n b).1.height = n.height
-      ∧ (validateRaw S n b).1.mem = n.mem ∧ (validateRaw S n b).1.archive = n.archive := by
+      ∧ (validateRaw S n b).1.mem = n.mem ∧ (validateRaw S n b).1.archive = n.archive
+      ∧ (validateRaw S n b).1.lastCert = n.lastCert := by
   unfold validateRaw reset
   by_cases hh : S.height b ≠ n.height
   · simp [hh]
@@ -102,27 +103,45 @@ theorem validate_reject (n : Node σ β ρ) (b : β) (hx : ∀ r, (validate S n 
   obtain ⟨n', o⟩ := p
   cases o with
   | ok r => exact absurd rfl (hx r)
-  | _ => obtain ⟨h1, h2, h3, h4⟩ := hc; simp_all [roundInterrupt]
+  | _ => obtain ⟨h1, h2, h3, h4, h5⟩ := hc; simp_all [roundInterrupt]
 
-/-- commit by replay (no cached result for this block): verdict and next state are those of the
-committed state, for ANY working copy -/
-theorem replay_commit_computes (n : Node σ β ρ) (b : β) (hh : S.height b = n.height)
+/-- a replay executes `applyBlock` of the committed state — outside sync always, and on the sync path
+when the header's last certificate is written into the working store first (`indexesLastCert`);
+which version of that certificate the node had stored is then irrelevant -/
+theorem replayExec_eq (n : Node σ β ρ) (b : β) (sync : Bool)
+    (hs : sync = false ∨ S.indexesLastCert = true) :
+    replayExec S n b sync = S.applyBlock n.committed b := by
+  have : stale S n b sync = false := by
+    cases hs with
+    | inl h => simp [stale, h]
+    | inr h => simp [stale, h]
+  simp [replayExec, this]
+
+/-- commit by replay (no cached result for this block), on the live or the sync path, with any
+delivered certificate version: verdict and next state are those of the committed state, for ANY
+working copy and ANY stored version of the last certificate -/
+theorem replay_commit_computes (n : Node σ β ρ) (b : β) (sync : Bool) (v : Nat)
+    (hs : sync = false ∨ S.indexesLastCert = true) (hh : S.height b = n.height)
     (hc : n.cached ≠ some b) :
-    (commit S n b).2 = verdict S n.committed b ∧
-    (commit S n b).1.committed = (exec S n.committed b).getD n.committed ∧
-    (commit S n b).1.working = (commit S n b).1.committed := by
-  simp only [commit, reset, verdict, exec, hh, ne_eq, not_true_eq_false, if_false, hc]
+    (commit S n b sync v).2 = verdict S n.committed b ∧
+    (commit S n b sync v).1.committed = (exec S n.committed b).getD n.committed ∧
+    (commit S n b sync v).1.working = (commit S n b sync v).1.committed := by
+  have he := replayExec_eq S (reset S n) b sync hs
+  simp only [reset] at he
+  simp only [commit, reset, verdict, exec, hh, ne_eq, not_true_eq_false, if_false, hc, he]
   cases S.applyBlock n.committed b with
   | error e => simp
   | ok p =>
     obtain ⟨s1, r⟩ := p
     by_cases hr : r = S.claim b <;> simp [hr, finish, reset]
 
-/-- commit on a coherent node — cached or not — computes the verdict and state of the committed state -/
-theorem commit_computes (n : Node σ β ρ) (b : β) (hn : Coherent S n) (hh : S.height b = n.height) :
-    (commit S n b).2 = verdict S n.committed b ∧
-    (commit S n b).1.committed = (exec S n.committed b).getD n.committed ∧
-    (commit S n b).1.working = (commit S n b).1.committed := by
+/-- commit on a coherent node — cached or not, live or sync — computes the verdict and state of the
+committed state -/
+theorem commit_computes (n : Node σ β ρ) (b : β) (sync : Bool) (v : Nat)
+    (hs : sync = false ∨ S.indexesLastCert = true) (hn : Coherent S n) (hh : S.height b = n.height) :
+    (commit S n b sync v).2 = verdict S n.committed b ∧
+    (commit S n b sync v).1.committed = (exec S n.committed b).getD n.committed ∧
+    (commit S n b sync v).1.working = (commit S n b sync v).1.committed := by
   by_cases hc : n.cached = some b
   · have hx : exec S n.committed b = some n.working := by
       unfold Coherent at hn
@@ -138,24 +157,26 @@ theorem commit_computes (n : Node σ β ρ) (b : β) (hn : Coherent S n) (hh : S
         simp only [h] at hx ⊢
         by_cases hr : r = S.claim b <;> simp_all
     simp [commit, hh, hc, hv, hx, finish, reset]
-  · exact replay_commit_computes S n b hh hc
+  · exact replay_commit_computes S n b sync v hs hh hc
 
 /-- a rejected peer block leaves committed state, height and archive unchanged and the working copy
 equal to the committed state (C07: `reject_leaves_unchanged`, peer-block part) -/
-theorem commit_reject_unchanged (n : Node σ β ρ) (b : β) (hx : ∀ r, (commit S n b).2 ≠ .ok r)
+theorem commit_reject_unchanged (n : Node σ β ρ) (b : β) (sync : Bool) (v : Nat)
+    (hx : ∀ r, (commit S n b sync v).2 ≠ .ok r)
     (hw : S.height b = n.height → n.cached ≠ some b) :
-    (commit S n b).1.committed = n.committed ∧ (commit S n b).1.height = n.height ∧
-    (commit S n b).1.archive = n.archive ∧
-    (S.height b = n.height → (commit S n b).1.working = n.committed) := by
+    (commit S n b sync v).1.committed = n.committed ∧ (commit S n b sync v).1.height = n.height ∧
+    (commit S n b sync v).1.archive = n.archive ∧
+    (S.height b = n.height → (commit S n b sync v).1.working = n.committed) := by
   by_cases hh : S.height b = n.height
   · have hc := hw hh
     simp only [commit, reset, hh, ne_eq, not_true_eq_false, if_false, hc] at hx ⊢
-    cases h : S.applyBlock n.committed b with
+    generalize replayExec S _ b sync = e at hx ⊢
+    cases e with
     | error e => simp
     | ok p =>
       obtain ⟨s1, r⟩ := p
       by_cases hr : r = S.claim b
-      · simp [h, hr] at hx
+      · simp [hr] at hx
       · simp [hr]
   · simp [commit, hh]
 
@@ -198,13 +219,14 @@ theorem coherent_step (hclr : S.resetClearsCache = true) (n : Node σ β ρ) (op
     · have : ∀ r, (validate S n b).2 ≠ .ok r := fun r h => hacc ⟨r, h⟩
       rw [validate_reject S n b this]
       simp [roundInterrupt, Coherent]
-  | commit b =>
+  | commit b sync v =>
     simp only [step]
     by_cases hh : S.height b = n.height
     · by_cases hc : n.cached = some b
       · simp [commit, hh, hc, finish, reset, Coherent, hclr]
       · simp only [commit, reset, hh, ne_eq, not_true_eq_false, if_false, hc, hclr, if_true]
-        cases S.applyBlock n.committed b with
+        generalize replayExec S _ b sync = e
+        cases e with
         | error e => simp [Coherent]
         | ok p =>
           obtain ⟨s1, r⟩ := p
@@ -226,30 +248,37 @@ theorem coherent_run (hclr : S.resetClearsCache = true) (n : Node σ β ρ) (ops
 /-- Full-strength statement: after ANY two histories that leave two nodes with the same committed
 state and height, every path gives the same verdict for a block and the same next committed state;
 the histories may contain proposals, validations of other blocks (accepted, rejected, failing
-midway), rejected peer blocks, round interrupts, restarts and commits. -/
+midway), rejected peer blocks, round interrupts, restarts, commits and sync replays, and the two
+nodes may have stored DIFFERENT versions (signer sets) of every earlier commit certificate. -/
 def PathsAgree (S : Sys σ β ρ ε) : Prop :=
-  ∀ (s : σ) (h : Nat) (ops₁ ops₂ : List (Op β)) (b : β),
+  ∀ (s : σ) (h : Nat) (ops₁ ops₂ : List (Op β)) (b : β) (v₁ v₂ : Nat),
     (run S (init s h) ops₁).committed = (run S (init s h) ops₂).committed →
     (run S (init s h) ops₁).height = (run S (init s h) ops₂).height →
     S.height b = (run S (init s h) ops₁).height →
       (validate S (run S (init s h) ops₁) b).2 = (commit S (run S (init s h) ops₂) b).2 ∧
-      (commit S (run S (init s h) ops₁) b).2 = (commit S (run S (init s h) ops₂) b).2 ∧
-      (commit S (run S (init s h) ops₁) b).1.committed = (commit S (run S (init s h) ops₂) b).1.committed ∧
+      (commit S (run S (init s h) ops₁) b false v₁).2 = (commit S (run S (init s h) ops₂) b false v₂).2 ∧
+      (commit S (run S (init s h) ops₁) b true v₁).2 = (commit S (run S (init s h) ops₂) b false v₂).2 ∧
+      (commit S (run S (init s h) ops₁) b true v₁).1.committed =
+        (commit S (run S (init s h) ops₂) b false v₂).1.committed ∧
       (produce S (run S (init s h) ops₁) b).2 = (produce S (run S (init s h) ops₂) b).2
 
 /-- **paths_agree.** The property holds for the mechanism in which every controller-level reset of
-the FSM also drops the cached block result. -/
-theorem paths_agree (hclr : S.resetClearsCache = true) : PathsAgree S := by
-  intro s h ops₁ ops₂ b hc hh hb
+the FSM also drops the cached block result and the header's last certificate is written into the
+working store before the block is applied on every path. -/
+theorem paths_agree (hclr : S.resetClearsCache = true) (hix : S.indexesLastCert = true) : PathsAgree S := by
+  intro s h ops₁ ops₂ b v₁ v₂ hc hh hb
   have c₁ := coherent_run S hclr _ ops₁ (coherent_init S s h)
   have c₂ := coherent_run S hclr _ ops₂ (coherent_init S s h)
-  have k₁ := commit_computes S _ b c₁ hb
-  have k₂ := commit_computes S _ b c₂ (hh ▸ hb)
-  have v₁ := validate_computes S (run S (init s h) ops₁) b hb
-  refine ⟨?_, ?_, ?_, ?_⟩
-  · rw [v₁, k₂.1, hc]
+  have k₁ := commit_computes S _ b false v₁ (Or.inl rfl) c₁ hb
+  have s₁ := commit_computes S _ b true v₁ (Or.inr hix) c₁ hb
+  have k₂ := commit_computes S _ b false v₂ (Or.inl rfl) c₂ (hh ▸ hb)
+  have k₀ := commit_computes S _ b false 0 (Or.inl rfl) c₂ (hh ▸ hb)
+  have vv := validate_computes S (run S (init s h) ops₁) b hb
+  refine ⟨?_, ?_, ?_, ?_, ?_⟩
+  · rw [vv, k₀.1, hc]
   · rw [k₁.1, k₂.1, hc]
-  · rw [k₁.2.1, k₂.2.1, hc]
+  · rw [s₁.1, k₂.1, hc]
+  · rw [s₁.2.1, k₂.2.1, hc]
   · rw [produce_computes, produce_computes, hc]
 
 /-- the mechanism of the source tree is the repaired one: every statement that resets the
@@ -257,13 +286,19 @@ controller's FSM is the one inside `Controller.resetFSM`, and `resetFSM` clears
 `Consensus.BlockResult` first (generated fact; fails when a bare `c.FSM.Reset()` reappears) -/
 theorem mechanism_is_repaired : resetClearsCacheFact = true := by decide
 
+/-- the source tree writes the candidate header's `LastQuorumCertificate` into the working store for
+every height > 1 on every path — the one `IndexQC` site in `CheckAndSetLastCertificate` is guarded by
+the height test alone, not by the syncing test — and `ApplyAndValidateBlock` does so before
+`ApplyBlock` (generated facts) -/
+theorem last_certificate_is_the_headers : indexesLastCertFact = true := by decide
+
 /-- non-vacuity: both former counterexample histories, on the repaired mechanism, end with the block
 applied (commit by replay): state 8 = 0 + 7 + 1 -/
 example :
-    let S : Sys Nat Nat Nat Unit := ⟨fun s b => .ok (s + b + 1, b), fun s _ => s, fun b => if b = 13 then 0 else b, fun _ => 0, true⟩
-    (run S (init 0 0 : Node Nat Nat Nat) [.validate 7, .produce 9, .commit 7]).committed = 8
-    ∧ (run S (init 0 0 : Node Nat Nat Nat) [.validate 7, .commit 13, .commit 7]).committed = 8
-    ∧ (run S (init 0 0 : Node Nat Nat Nat) [.produce 5, .validate 9, .interrupt, .validate 7, .commit 7]).committed = 8 := by
+    let S : Sys Nat Nat Nat Unit := ⟨fun s b => .ok (s + b + 1, b), fun s _ => s, fun b => if b = 13 then 0 else b, fun _ => 0, true, fun _ => 0, fun s b _ => .ok (s + b + 1, b), true⟩
+    (run S (init 0 0 : Node Nat Nat Nat) [.validate 7, .produce 9, .commit 7 false 0]).committed = 8
+    ∧ (run S (init 0 0 : Node Nat Nat Nat) [.validate 7, .commit 13 false 0, .commit 7 false 0]).committed = 8
+    ∧ (run S (init 0 0 : Node Nat Nat Nat) [.produce 5, .validate 9, .interrupt, .validate 7, .commit 7 false 0]).committed = 8 := by
   decide
 
 /-! ## the mechanism before the repair violates the property (kept as counterexamples) -/
@@ -271,14 +306,14 @@ example :
 /-- every block valid (state' = state + block + 1, result = block) except block 13, whose claim is
 wrong; resets leave the cached block result in place -/
 def oldSys : Sys Nat Nat Nat Unit :=
-  ⟨fun s b => .ok (s + b + 1, b), fun s _ => s, fun b => if b = 13 then 0 else b, fun _ => 0, false⟩
+  ⟨fun s b => .ok (s + b + 1, b), fun s _ => s, fun b => if b = 13 then 0 else b, fun _ => 0, false, fun _ => 0, fun s b _ => .ok (s + b + 1, b), true⟩
 
 /-- Witness A: validate(7); produce(9); commit(7). `ProduceProposal`'s deferred `c.FSM.Reset()` drops
 the working copy, the cached result stays, the commit stores block 7 over an unchanged state. -/
 theorem stale_cache_after_produce :
-    (run oldSys (init 0 0 : Node Nat Nat Nat) [.validate 7, .produce 9, .commit 7]).committed = 0
+    (run oldSys (init 0 0 : Node Nat Nat Nat) [.validate 7, .produce 9, .commit 7 false 0]).committed = 0
     ∧ exec oldSys 0 7 = some 8
-    ∧ (run oldSys (init 0 0 : Node Nat Nat Nat) [.validate 7, .produce 9, .commit 7]).archive = [(7, 7)] := by
+    ∧ (run oldSys (init 0 0 : Node Nat Nat Nat) [.validate 7, .produce 9, .commit 7 false 0]).archive = [(7, 7)] := by
   decide
 
 /-- Witness B: validate(7); commit(13) is replayed and rejected (reset, cached result stays);
@@ -286,13 +321,34 @@ commit(7) then stores block 7 over an unchanged state. A peer that serves one ga
 syncing node is enough. -/
 theorem stale_cache_after_failed_replay :
     (commit oldSys (run oldSys (init 0 0 : Node Nat Nat Nat) [.validate 7]) 13).2 = .mismatch
-    ∧ (run oldSys (init 0 0 : Node Nat Nat Nat) [.validate 7, .commit 13, .commit 7]).committed = 0
+    ∧ (run oldSys (init 0 0 : Node Nat Nat Nat) [.validate 7, .commit 13 false 0, .commit 7 false 0]).committed = 0
     ∧ exec oldSys 0 7 = some 8 := by
   decide
 
 theorem paths_agree_fails_without_cache_reset : ¬ PathsAgree oldSys := by
   intro h
-  have := (h 0 0 [.validate 7, .commit 13] [] 7 rfl rfl rfl).2.2.1
+  have := (h 0 0 [.validate 7, .commit 13 false 0] [] 7 0 0 rfl rfl rfl).2.2.2.1
+  revert this
+  decide
+
+/-- a mechanism that writes the header's last certificate only outside sync: every block is valid when
+begin-block consumes the header's version of the last certificate (version 2); consuming another
+version gives another result -/
+def syncOldSys : Sys Nat Nat Nat Unit :=
+  ⟨fun s b => .ok (s + b + 1, b), fun s _ => s, id, fun b => if b = 7 then 1 else 0, true, fun _ => 2,
+   fun s b v => .ok (s + b + 1 + 100 * v, b + 100 * v), false⟩
+
+/-- without that write on the sync path a node that stored version 1 of the last certificate rejects,
+when syncing, the valid block whose header embeds version 2 (unequal header), while the same node
+accepts it on the live path and a node that stored version 2 accepts it when syncing -/
+theorem sync_diverges_without_last_certificate_write :
+    (commit syncOldSys { (init 0 1 : Node Nat Nat Nat) with lastCert := 1 } 7 true 5).2 = .mismatch
+    ∧ (commit syncOldSys { (init 0 1 : Node Nat Nat Nat) with lastCert := 1 } 7 false 5).2 = .ok 7
+    ∧ (commit syncOldSys { (init 0 1 : Node Nat Nat Nat) with lastCert := 2 } 7 true 5).2 = .ok 7
+    ∧ ¬ PathsAgree syncOldSys := by
+  refine ⟨by decide, by decide, by decide, ?_⟩
+  intro h
+  have := (h 0 0 [.commit 0 false 1] [.commit 0 false 2] 7 5 5 rfl rfl rfl).2.2.1
   revert this
   decide
 
@@ -320,13 +376,13 @@ theorem specStep_committed (n : Node σ β ρ) (sp : Spec β) :
   | produce b => have := produce_keeps_committed S n b; exact ⟨this.1, this.2.2.1, this.2.2.2.1⟩
   | validateRaw b =>
     have := validateRaw_frame S n b
-    exact ⟨this.1, this.2.1, this.2.2.2⟩
+    exact ⟨this.1, this.2.1, this.2.2.2.1⟩
   | validate b =>
     simp only [specStep, validate]
     have hc : (validateRaw S n b).1.committed = n.committed ∧ (validateRaw S n b).1.height = n.height
         ∧ (validateRaw S n b).1.archive = n.archive := by
       have := validateRaw_frame S n b
-      exact ⟨this.1, this.2.1, this.2.2.2⟩
+      exact ⟨this.1, this.2.1, this.2.2.2.1⟩
     generalize validateRaw S n b = p at hc ⊢
     obtain ⟨n', o⟩ := p
     cases o <;> simp_all [roundInterrupt]
@@ -363,8 +419,8 @@ theorem speculation_no_leak (s : σ) (h : Nat) (specs : List (Spec β)) (b : β)
   obtain ⟨h1, h2, h3⟩ := hclean
   have hbn : S.height b = n.height := by rw [h3]; exact hb
   have hcn : n.cached ≠ some b := by rw [h2]; simp
-  have k := replay_commit_computes S n b hbn hcn
-  have k0 := replay_commit_computes S (init s h : Node σ β ρ) b (by simpa [init] using hb) (by simp [init])
+  have k := replay_commit_computes S n b false 0 (Or.inl rfl) hbn hcn
+  have k0 := replay_commit_computes S (init s h : Node σ β ρ) b false 0 (Or.inl rfl) (by simpa [init] using hb) (by simp [init])
   refine ⟨?_, ?_, ?_, ?_⟩
   · rw [validate_computes S n b hbn, h1]
   · rw [k.1, h1]
@@ -374,7 +430,7 @@ theorem speculation_no_leak (s : σ) (h : Nat) (specs : List (Spec β)) (b : β)
 /-- non-vacuity: three discarded executions, one of them failing midway -/
 example :
     let S : Sys Nat Nat Nat Unit :=
-      ⟨fun s b => if b = 4 then .error () else .ok (s + b + 1, b), fun s b => s + 1000 * b, id, fun _ => 0, true⟩
+      ⟨fun s b => if b = 4 then .error () else .ok (s + b + 1, b), fun s b => s + 1000 * b, id, fun _ => 0, true, fun _ => 0, fun _ _ _ => .error (), true⟩
     (speculate S (init 0 0 : Node Nat Nat Nat) [.validate 3, .validateRaw 4, .produce 5]).working = 0
     ∧ (validateRaw S (init 0 0 : Node Nat Nat Nat) 4).1.working = 4000 := by
   decide
